@@ -169,7 +169,7 @@ PROPS["C04"] = dict(
         dict(name="prod-dyn", src="number_harness.cpp", cfg="prod-dyn", env={}),
         dict(name="prod-dyn-nohsw", src="number_harness.cpp", cfg="prod-dyn+SONIC_VERIF_DISPATCH_NO_HASWELL", env={}, tiers=("thorough",)),
     ],
-    require=["expected:integer-kind", "expected:double", "expected:overflow-rejected", "expected:subnormal", "expected:zero-double",
+    require=["context:through-ParseSchema-onto-a-declared-key", "expected:integer-kind", "expected:double", "expected:overflow-rejected", "expected:subnormal", "expected:zero-double",
              "audit:pow10m128-row-exact-floor", "audit:lshift-rows", "context:root(EOF-terminated)", "halfway", "every_table_row",
              "overflow_threshold", "near_power_of_two"],
     assumptions=["glibc strtod is correctly rounded (cross-checked against libstdc++ from_chars in stream oracle_selftest)",
@@ -379,7 +379,7 @@ PROPS["C12"] = dict(
         dict(name="prod-hsw", src="mutation_harness.cpp", cfg="prod-hsw", env={}, args=["--prop", "C12"]),
         dict(name="prod-wsm", src="mutation_harness.cpp", cfg="prod-wsm", env={}, args=["--prop", "C12"]),
     ],
-    require=["histories-on-a-small-chunk-pool(64..1024 bytes)", "op:argument-aliases-the-target(own element / own value / own bytes)", "operations-checked", "op:CreateMap", "op:DestroyMap", "op:RemoveMember(tail)-while-map-exists", "op:erase-full-or-empty-range",
+    require=["histories-on-a-small-chunk-pool(64..1024 bytes)", "op:argument-aliases-the-target(own element / own value / own bytes)", "histories-with-both-documents-on-one-pool", "op:side-document-parsed-again", "op:node-moved-across-documents-of-one-pool", "operations-checked", "op:CreateMap", "op:DestroyMap", "op:RemoveMember(tail)-while-map-exists", "op:erase-full-or-empty-range",
              "op:growth-from-capacity-0", "op:move-assign-from-own-subnode", "op:Swap-with-own-subnode", "op:CopyFrom",
              "histories-with-duplicate-keys(no-map)", "lookups-checked", "op:reserve-below-size", "op:Clear-then-reuse", "AtPointer-checked",
              "histories-starting-from-a-parsed-document"],
@@ -405,7 +405,7 @@ PROPS["C13"] = dict(
         dict(name="schema-ledger", src="schema_harness.cpp", cfg="asan-hsw", env=ASAN_ENV,
              args=["--prop", "C13", "--streams", "kind_matrix_ledger,generated_pairs_ledger,invalid_text_pool,invalid_text_ledger"]),
     ],
-    require=["ParseSchema-on-invalid-text", "invalid-text:rejected", "lazy-parse-or-merge-of-invalid-text(ledger)", "pool-over-ledger:move-assign-between-handles-of-one-pool", "operations-checked", "op:document-move", "op:document-swap", "op:Parse(valid)", "op:Parse(invalid)", "op:ParseOnDemand",
+    require=["ParseSchema-on-invalid-text", "invalid-text:rejected", "op:parsed-string-moved-out-and-re-homed", "lazy-parse-or-merge-of-invalid-text(ledger)", "pool-over-ledger:move-assign-between-handles-of-one-pool", "operations-checked", "op:document-move", "op:document-swap", "op:Parse(valid)", "op:Parse(invalid)", "op:ParseOnDemand",
              "copy-independence-checks", "ledger-quiescent-checks", "destruction-at-random-step", "op:CreateMap", "op:CopyFrom",
              "handover(Swap/move)-then-destroy-former-holder", "repeated-applications(2..4 texts)",
              "lazy-merge-on-ledger-allocator", "lazy-merge:escaped-keys"],
